@@ -48,33 +48,33 @@ Section PosPath.
     - rewrite Forall_forall in Ha; auto.
   Qed.
 
-  Lemma purge_goodp q l a : Forall goodp a -> Forall goodp (purge (build_orig q) q l a).
+  Lemma purge_goodp q l root a : Forall goodp a -> Forall goodp (purge (build_orig q) q l root a).
   Proof.
     intros Ha. destruct l as [i v|i kvs|i els|i els]; simpl.
-    - destruct v; simpl; auto; constructor; auto; reflexivity.
+    - destruct v, root; simpl; auto; constructor; auto; reflexivity.
     - apply Forall_rev_map_app'; auto. intros kv _. unfold goodp. simpl. apply add_key_orig.
     - apply Forall_rev_map_app'; auto. intros ie _. unfold goodp. simpl. apply add_idx_orig.
     - apply Forall_rev_map_app'; auto. intros e _. unfold goodp. simpl. apply add_member_orig.
   Qed.
 
-  Lemma add_everything_goodp q r a : Forall goodp a -> Forall goodp (add_everything (build_orig q) q r a).
+  Lemma add_everything_goodp q r root a : Forall goodp a -> Forall goodp (add_everything (build_orig q) q r root a).
   Proof.
     intros Ha. destruct r as [i v|i kvs|i els|i els]; simpl.
-    - destruct v; simpl; auto; constructor; auto; reflexivity.
+    - destruct v, root; simpl; auto; constructor; auto; reflexivity.
     - apply Forall_rev_map_app'; auto. intros kv _. unfold goodp. simpl. apply add_key_orig.
     - apply Forall_rev_map_app'; auto. intros ie _. unfold goodp. simpl. apply add_idx_orig.
     - apply Forall_rev_map_app'; auto. intros e _. unfold goodp. simpl. apply add_member_orig.
   Qed.
 
-  Lemma clash_goodp q l r a a' :
+  Lemma clash_goodp q l r root a a' :
     Forall goodp a ->
-    (let a1 := add_everything (build_orig q) q r (purge (build_orig q) q l a) in
+    (let a1 := add_everything (build_orig q) q r root (purge (build_orig q) q l root a) in
      if Nat.eqb (List.length a1) (List.length a)
      then Ok (mkentry AChange (build_orig q) q l r :: a1) else Ok a1) = Ok a' ->
     Forall goodp a'.
   Proof.
     intros Ha H. simpl in H.
-    assert (G : Forall goodp (add_everything (build_orig q) q r (purge (build_orig q) q l a))).
+    assert (G : Forall goodp (add_everything (build_orig q) q r root (purge (build_orig q) q l root a))).
     { apply add_everything_goodp. apply purge_goodp. exact Ha. }
     destruct (Nat.eqb _ _); inversion H; subst; auto. constructor; auto. reflexivity.
   Qed.
@@ -144,12 +144,14 @@ Section PosPath.
     eapply zip_goodp; eauto.
   Qed.
 
-  Lemma lists_goodp rec q r lels rels par pref a a' :
+  Lemma lists_goodp rec q l r lels rels par pref a a' :
     rec_goodp rec ->
-    diff_lists path_eq cfg rec (build_orig q) q r lels rels par pref a = Ok a' ->
+    diff_lists path_eq cfg rec (build_orig q) q l r lels rels par pref a = Ok a' ->
     Forall goodp a -> Forall goodp a'.
   Proof.
     intros Hrec H Ha. unfold diff_lists in H.
+    destruct (negb _).
+    { inversion H; subst. constructor; [reflexivity|]. constructor; [reflexivity | exact Ha]. }
     assert (Haoh : forall nc,
       diff_aoh path_eq cfg rec (build_orig q) q r lels rels nc a = Ok a' -> Forall goodp a').
     { intros nc H'. unfold diff_aoh in H'. destruct Hpos as [_ Hp2].
@@ -162,7 +164,7 @@ Section PosPath.
   Proof.
     intros Hrec q l r par pref a a' H Ha.
     destruct l as [i v|i lkvs|i lels|i lels], r as [j w|j rkvs|j rels|j rels];
-      try (eapply clash_goodp; [exact Ha | exact H]); simpl in H.
+      try (eapply (clash_goodp q _ _ (match par with None => true | Some _ => false end)); [exact Ha | exact H]); simpl in H.
     - inversion H; subst. constructor; [unfold goodp, diff_scalars, cmp_entry; reflexivity | exact Ha].
     - eapply dicts_goodp; [exact Hrec | exact H | exact Ha].
     - eapply lists_goodp; [exact Hrec | exact H | exact Ha].
